@@ -183,7 +183,15 @@ Section Arith.
     | VO cls [_; VN (NF a)] =>
         (* constant value / blackman area *)
         f_lt a zero
-    | VO cls [_; VN (NF a); VN (NF b)] => f_lt a zero || f_lt b zero
+    | VO cls [VN (NI d); VN (NF a); VN (NF b)] =>
+        (* ramp: samples = clip(slope * t + start, min, max); a NaN end point or
+           a single sample (slope = x/0) makes every sample NaN; infinite end
+           points make [inf * 0] and [inf - inf] appear *)
+        if PrimFloat.is_nan a || PrimFloat.is_nan b then false
+        else if d <? 2 then false
+        else if PrimFloat.is_infinity a then false      (* inf - inf: every sample NaN *)
+        else if PrimFloat.is_infinity b then f_lt b zero (* sample 0 is NaN, the others are b *)
+        else f_lt a zero || f_lt b zero
     | VO cls [VS _; _; VN (NI n)] => negb (n =? 0)
     | _ => false
     end.
